@@ -259,6 +259,37 @@ def run(ctx, rep):
     rep.check("C08.e", "from_binary/offset-advance", adv, where=FBn.loc(), what="from_binary advances the running offset by each blob's length (R-ACCUM)")
     framing_rule(ctx, rep, "C08.f")
     index_entry_rule(ctx, rep, "C08.g")
+    # ---- C08.i: rebuilding the index reads every pack header it needs - also on repositories that need warm-up (from C16.c)
+    from rules import C16
+    from rules.C10 import borrow
+    rep.rule("C08.i", "repair-index warms up and reads the complete set of packs whose headers it needs (shared with C16.c)")
+    n_ = borrow(rep, ctx, C16, lambda o: o.rule == "C16.c" and "repair::index" in o.key, "C08.i")
+    rep.floor("C08.i", "borrowed obligations", n_, 2)
+    # ---- C08.h: sizes computed from index data add up the length of EACH entry (entries of one pack may differ: a pack
+    # can mix compressed and uncompressed blobs, e.g. after a fast repack across a compression change)
+    rep.rule("C08.h", "computed header/pack sizes sum the individual entry lengths")
+    for fname in ("size", "pack_size"):
+        F0 = prog.find1(rf"^rustic_core::repofile::packfile::PackHeaderRef::<'a>::{fname}$|^rustic_core::repofile::packfile::PackHeaderRef::<'_>::{fname}$|^rustic_core::repofile::packfile::PackHeaderRef::{fname}$")
+        famh = [F0] + prog.closures_of(F0)
+        # local helpers of the packfile module called from here
+        for f_ in list(famh):
+            for _, t_ in f_.calls():
+                if "callee" in t_ and callee(t_).startswith("rustic_core::repofile::packfile::PackHeaderRef") and callee(t_) in prog.bodies and prog.bodies[callee(t_)] not in famh and callee(t_) != F0.path:
+                    hb = prog.bodies[callee(t_)]
+                    famh += [hb] + prog.closures_of(hb)
+        lens_ = [(f_, bb) for f_ in famh for bb, t_ in f_.calls() if "callee" in t_ and callee(t_).endswith("packfile::HeaderEntry::length")]
+        mul = []
+        for (f_, bb) in lens_:
+            for bi, blk in enumerate(f_.blocks):
+                for s_ in blk["s"]:
+                    if s_[0] == "=" and s_[2][0] == "bin" and s_[2][1] in ("Mul", "MulWithOverflow"):
+                        for o in (s_[2][2], s_[2][3]):
+                            if op_place(o) and bb in flow.backward_slice(f_, op_place(o))["call_sites"]:
+                                mul.append(where(f_, bi))
+        per_item = any(f_.is_closure() or any(bb in C.loop_blocks(f_, h, l) for (l, h) in C.back_edges(f_)) for (f_, bb) in lens_)
+        okh = bool(lens_) and not mul and per_item
+        rep.check("C08.h", f"{fname}/sums-each-entry", okh, where=F0.loc(), what=f"PackHeaderRef::{fname} adds HeaderEntry::length() of every blob" if okh else
+                  f"PackHeaderRef::{fname} does not add up the length of each entry (length() multiplied at {sorted(set(mul))} / not evaluated per blob): sizes are wrong for packs mixing compressed and uncompressed blobs")
 
 
 def _length_len(prog):
